@@ -5,7 +5,7 @@ from vlib.chrunner import Cond
 
 PROP = "C07"
 FIELDS = {0: "leaf content", 1: "tail", 2: "attribute value (root)", 3: "qualified attribute value", 4: "namespace URI", 5: "depth-2 content",
-          6: "depth-2 tail", 7: "attribute value (child)", 8: "mixed content text", 9: "content of an otherwise empty element", 10: "last child's tail",
+          6: "depth-2 tail", 7: "attribute value (child)", 8: "mixed content text", 9: "content of an otherwise empty element", 10: "last child's tail", 11: "URI of a re-bound inherited prefix",
           20: "EML leaf content (first child)", 21: "EML attribute value (child)", 22: "EML depth-2 content", 23: "EML root attribute", 24: "EML last leaf content"}
 
 CORPUS_OK = ['<a/>', '<a></a>', '<a b="1"/>', "<a b='1' c=\"2\"/>", '<a>x</a>', '<a>x<b/>y</a>', '<p:a xmlns:p="u"/>', '<a>&lt;&amp;&gt;&quot;&apos;</a>',
